@@ -363,7 +363,10 @@ def gen_op(rng, rows):
         used = {s["dir"] for s in streams}
         free = [d for d in DIRS if d not in used]
         d = rng.choice(free) if free and rng.random() < .8 else rng.choice(DIRS + ["Alpha", "ALPHA"])
-        return ("as", d, rng.choice(TITLES), rng.randrange(2))
+        route = rng.randrange(4)
+        if route >= 2:
+            return ("as", d, rng.choice(TITLES), route, rng.choice(DIRS + ["nosuchdir"]))
+        return ("as", d, rng.choice(TITLES), route)
     if k == "up":
         spk = pick_pk(rng, streams)
         stems = list(STEMS)
